@@ -824,8 +824,8 @@ def pool_layout(prog, chk, rid):
         for f in f_rm:
             defs = q.local_defs(f)
             R = base_local(f, dtor_events(f)[0][1])
-            inits = [f.r(init) for kind, _n, init in defs.get(R["id"], []) if init is not None] if R else []
-            cast_from_value = any(re.search(r"Item \*\)&\w+$", s) for s in inits)
+            inits = [q.xr(f, init, defs) for kind, _n, init in defs.get(R["id"], []) if init is not None] if R else []      # through helper results
+            cast_from_value = any(re.search(r"Item \*\)&\w+\)?$", s) for s in inits)
             if cast_from_value and first == "value" and rec["fields"][0]["off"] == 0:
                 chk.ok(rid, f, "node = (Item*)&value with value at offset 0", "%s:%s" % (f.file, f.line), "Item fields: %s" % [x["n"] for x in rec["fields"]])
             elif cast_from_value:
